@@ -821,6 +821,63 @@ func vfHwDecodeSplit(c vfHwCfg, ctx [][]byte, chunks [][]byte) vfHwOutcome {
 	return o
 }
 
+// vfHwSizeUpdateConnections: directed connections (independent of the seed) whose later blocks
+// begin with one or two dynamic table size updates, with one-octet and multi-octet integers,
+// followed by fields, on a dynamic table that is non-empty, empty, or emptied by the update.
+// vfHwC03Record cuts each block at every octet offset (inside the update's integer, right
+// after it, between the two updates, inside the fields) and compares with the single Write.
+func vfHwSizeUpdateConnections() []struct {
+	c    vfHwCfg
+	blks []vfHwBlk
+} {
+	upd := func(v uint64) []byte {
+		b := &vfHwBuilder{}
+		b.appendInt(0x20, 5, v, 0)
+		return append([]byte(nil), b.buf...)
+	}
+	lit := func(hi byte, name, value string) []byte { // literal with a literal name, raw strings
+		out := []byte{hi, byte(len(name))}
+		out = append(out, name...)
+		out = append(out, byte(len(value)))
+		return append(out, value...)
+	}
+	cat := func(parts ...[]byte) []byte {
+		var out []byte
+		for _, p := range parts {
+			out = append(out, p...)
+		}
+		return out
+	}
+	fill := cat(lit(0x40, "x-a", "1"), lit(0x40, "x-bb", "22"), []byte{0x82}) // two entries (36 + 38 octets)
+	fields := cat([]byte{0xbe}, lit(0x40, "x-c", "3"), []byte{0x84}, lit(0x10, "k", "s"))
+	var out []struct {
+		c    vfHwCfg
+		blks []vfHwBlk
+	}
+	add := func(c vfHwCfg, blocks ...[]byte) {
+		var blks []vfHwBlk
+		for _, b := range blocks {
+			blks = append(blks, vfHwBlk{b: b, kind: "size-update-first"})
+		}
+		out = append(out, struct {
+			c    vfHwCfg
+			blks []vfHwBlk
+		}{c, blks})
+	}
+	c := vfHwCfg{0, 4096, 4096}
+	// one update: multi-octet (256, 4096), one-octet (30), shrinking to one entry (40), to none (0)
+	add(c, fill, cat(upd(256), fields), cat(upd(4096), fields), cat(upd(30), lit(0x00, "n", "v")))
+	add(c, fill, cat(upd(40), []byte{0xbe}, lit(0x40, "x-c", "3")), cat(upd(0), lit(0x40, "x-d", "4")), cat(upd(200), lit(0x40, "x-d", "4"), []byte{0xbe}))
+	// two updates (minimum, final) with the table still non-empty / emptied after the first
+	add(c, fill, cat(upd(100), upd(4096), fields), cat(upd(40), upd(256), []byte{0xbe}, lit(0x40, "x-c", "3")))
+	add(c, fill, cat(upd(0), upd(4096), lit(0x40, "x-c", "3"), []byte{0xbe}), cat(upd(31), upd(38), lit(0x40, "x-c", "3"), []byte{0xbe}))
+	add(c, fill, cat(upd(20), upd(30), lit(0x40, "x-c", "3")), cat(upd(4095), upd(4096), fields))
+	// a limited string length (the "paranoia" path of Write) and a small allowed maximum
+	add(vfHwCfg{16, 4096, 4096}, fill, cat(upd(256), fields), cat(upd(100), upd(300), fields))
+	add(vfHwCfg{0, 100, 100}, fill, cat(upd(64), upd(100), []byte{0xbe}, lit(0x40, "x-c", "3")), cat(upd(99), fields))
+	return out
+}
+
 // vfHwC03Record: for every block of seeded connections (plus crafted maximally padded
 // literals) decode it whole and under many partitions into consecutive Write calls, always
 // from the same decoder state, and log what an observer sees each time.  Trace.tla
@@ -829,14 +886,19 @@ func vfHwC03Record(env *vfEnv) {
 	n := env.Int("traces", 30)
 	maxCutsAll := env.Int("allcuts", 320) // blocks up to this length get every 2-chunk partition
 	multi := env.Int("multi", 12)
-	for t := 1; t <= n && !env.Hung; t++ {
+	directed := vfHwSizeUpdateConnections()
+	for t := 1; t <= n+len(directed) && !env.Hung; t++ {
 		if !env.Only(t) {
 			continue
 		}
 		rnd := env.Rand(int64(1000 + t))
 		var c vfHwCfg
 		var conn []vfHwBlk
-		if t%3 == 0 {
+		if t > n {
+			// directed, the same for every seed: blocks that start with one or two dynamic
+			// table size updates (see vfHwSizeUpdateConnections); every 2-chunk cut is taken below
+			c, conn = directed[t-n-1].c, directed[t-n-1].blks
+		} else if t%3 == 0 {
 			// crafted: longest acceptable representations for ms >= 127
 			c = []vfHwCfg{{127, 4096, 4096}, {128, 256, 256}, {200, 4096, 4096}, {127, 0, 0}}[rnd.Intn(4)]
 			bld := &vfHwBuilder{rnd: rnd}
@@ -1139,8 +1201,8 @@ func vfHwC04Concurrent(env *vfEnv, firstTrace int) {
 	deadline := time.Now().Add(budget)
 	type result struct {
 		id, n, outd int
-		ok      bool
-		p       string
+		ok          bool
+		p           string
 	}
 	for r := 0; r < rounds && !env.Hung && time.Now().Before(deadline); r++ {
 		t := firstTrace + 1 + r/group
